@@ -188,6 +188,9 @@ fn value_oracles<K: Kind>(ck: &mut Ck, p: &GenericPurl<K::T>, builtin: bool, par
     }
     // C03 ---------------------------------------------------------------
     let s = p.to_string();
+    if builtin {
+        ck.req("C03", !ty.bytes().any(|b| b.is_ascii_uppercase()), "type in the canonical string is not lower case");
+    }
     let want = render(p);
     if s != want {
         ck.fail("C03", format!("to_string {:?} but documented shape gives {:?}", s, want));
@@ -579,11 +582,17 @@ fn c09<K: Kind>(ck: &mut Ck, a: &[&str], made: &Made<K::T>, typed: bool) {
         Made::Stop(e) => {
             if want_ok {
                 ck.fail("C09", format!("build refused ({}) although name, type, rule, keys and checksum are fine", e));
+                if typed && e.contains("namespace") {
+                    ck.fail("C08", "builder demands a namespace although one is present or the type is not maven");
+                }
             }
         },
         Made::Purl(p) => {
             if !want_ok {
                 ck.fail("C09", format!("build succeeded ({}) although it must be refused", got));
+                if typed && !rule_ok {
+                    ck.fail("C08", "maven built without any namespace segment (the parser refuses its string form)");
+                }
                 return;
             }
             let gq: BTreeMap<String, String> = p.qualifiers().iter().map(|(k, v)| (k.as_str().to_string(), v.to_string())).collect();
@@ -596,6 +605,9 @@ fn c09<K: Kind>(ck: &mut Ck, a: &[&str], made: &Made<K::T>, typed: bool) {
                 && p.subpath().unwrap_or("") == r.sub;
             if !same {
                 ck.fail("C09", format!("accessors {} differ from what was last set", got));
+            }
+            if typed && p.name() != name {
+                ck.fail("C08", format!("builder: name {:?}, the type's rule gives {:?}", p.name(), name));
             }
         },
     }
@@ -1137,6 +1149,14 @@ fn j_oracle(ck: &mut Ck, a: &[&str]) {
         let v: Result<serde_json::Value, _> = serde_json::from_str(j);
         let Ok(v) = v else { return };
         let de = serde_json::from_value::<GenericPurl<K::T>>(v.clone());
+        // the same JSON text through the three entry points of serde_json (borrowed, transient and owned strings reach the visitor differently)
+        let de_text = serde_json::from_str::<GenericPurl<K::T>>(j);
+        let de_reader = serde_json::from_reader::<_, GenericPurl<K::T>>(j.as_bytes());
+        if de.is_ok() != de_text.is_ok() || de.is_ok() != de_reader.is_ok() {
+            ck.fail("C16", format!("from_value / from_str / from_reader disagree on {}: {} {} {}", j, de.is_ok(), de_text.is_ok(), de_reader.is_ok()));
+        } else if let (Ok(a), Ok(b), Ok(c)) = (&de, &de_text, &de_reader) {
+            ck.req("C16", a == b && a == c, "from_value / from_str / from_reader give different PURLs");
+        }
         match v.as_str() {
             None => ck.req("C16", de.is_err(), "a non-string JSON value deserialises to a PURL"),
             Some(s) => {
